@@ -1,4 +1,5 @@
 import BufModel.Bucket
+import BufModel.Disk
 import Driver.Util
 import Driver.Bucket
 /-
@@ -14,7 +15,7 @@ import Driver.Bucket
   Path-function lines of Driver.C13 are accepted too.
 -/
 namespace Driver.C14
-open BufModel.Path BufModel.Bucket Driver Driver.Bucket
+open BufModel.Path BufModel.Bucket BufModel.Disk Driver Driver.Bucket
 
 partial def parseExpr : List String → Option (BExpr × List String)
   | "b" :: i :: r => i.toNat?.map fun n => (.base n, r)
@@ -36,47 +37,100 @@ partial def parseExpr : List String → Option (BExpr × List String)
       pure (.overlay a b, r2)
   | _ => none
 
-def stepOp (e : BExpr) (bs : Bases) (op : String) : Bases × String :=
+/-- driver state: per base, is it a disk bucket, and its tree (memory buckets use `files` only) -/
+abbrev DState := List (Bool × Disk)
+
+def DState.bases (st : DState) : Bases := st.map (·.2.files)
+
+def DState.getB (st : DState) (i : Nat) : Bool × Disk := st.getD i (false, BufModel.Disk.empty)
+
+def DState.setB (st : DState) (i : Nat) (d : Disk) : DState :=
+  (List.range st.length).map fun j => if j = i then ((st.getB j).1, d) else st.getB j
+
+def stepOp (e : BExpr) (st : DState) (op : String) : DState × String :=
+  let bs := st.bases
   match op.splitOn ":" with
   | ["g", h] => match hexDecode h with
       | some p => (match rGet e bs (s2l p) with
-          | .ok c => (bs, "ok:" ++ c) | .error er => (bs, errS er))
-      | none => (bs, "bad-op")
+          | .ok c => (st, "ok:" ++ c) | .error er => (st, errS er))
+      | none => (st, "bad-op")
   | ["s", h] => match hexDecode h with
       | some p => (match rGet e bs (s2l p) with
-          | .ok _ => (bs, "ok") | .error er => (bs, errS er))
-      | none => (bs, "bad-op")
+          | .ok _ => (st, "ok") | .error er => (st, errS er))
+      | none => (st, "bad-op")
   | ["w", h] => match hexDecode h with
-      | some p => (match rWalk e bs (s2l p) with
-          | .ok objs => (bs, "ok:" ++ dump objs) | .error er => (bs, errS er))
-      | none => (bs, "bad-op")
+      | some p => (match rWalkD (st.map (·.1)) e bs (s2l p) with
+          | .ok objs => (st, "ok:" ++ dump objs) | .error er => (st, errS er))
+      | none => (st, "bad-op")
   | ["p", i, h, c] => match i.toNat?, hexDecode h with
-      | some n, some p => (match memPut (bs.get n) (s2l p) (if c = "-" then "" else c) with
-          | .ok m' => (bs.set n m', "ok") | .error er => (bs, errS er))
-      | _, _ => (bs, "bad-op")
+      | some n, some p =>
+        let (isDisk, d) := st.getB n
+        let content := if c = "-" then "" else c
+        if isDisk then
+          (match diskPut d (s2l p) content with
+            | .ok d' => (st.setB n d', "ok") | .error er => (st, errS er))
+        else
+          (match memPut d.files (s2l p) content with
+            | .ok m' => (st.setB n { d with files := m' }, "ok") | .error er => (st, errS er))
+      | _, _ => (st, "bad-op")
   | ["d", i, h] => match i.toNat?, hexDecode h with
-      | some n, some p => (match memDelete (bs.get n) (s2l p) with
-          | .ok m' => (bs.set n m', "ok") | .error er => (bs, errS er))
-      | _, _ => (bs, "bad-op")
+      | some n, some p =>
+        let (isDisk, d) := st.getB n
+        if isDisk then
+          (match diskDelete d (s2l p) with
+            | .ok d' => (st.setB n d', "ok") | .error er => (st, errS er))
+        else
+          (match memDelete d.files (s2l p) with
+            | .ok m' => (st.setB n { d with files := m' }, "ok") | .error er => (st, errS er))
+      | _, _ => (st, "bad-op")
   | ["D", i, h] => match i.toNat?, hexDecode h with
-      | some n, some p => (match memDeleteAll (bs.get n) (s2l p) with
-          | .ok m' => (bs.set n m', "ok") | .error er => (bs, errS er))
-      | _, _ => (bs, "bad-op")
+      | some n, some p =>
+        let (isDisk, d) := st.getB n
+        if isDisk then
+          (match diskDeleteAll d (s2l p) with
+            | .ok d' => (st.setB n d', "ok") | .error er => (st, errS er))
+        else
+          (match memDeleteAll d.files (s2l p) with
+            | .ok m' => (st.setB n { d with files := m' }, "ok") | .error er => (st, errS er))
+      | _, _ => (st, "bad-op")
   | ["C", j] => match j.toNat? with
-      | some n => (match rCopy e bs n with
-          | .ok (cnt, bs') => (bs', "ok:" ++ toString cnt) | .error er => (bs, errS er))
-      | none => (bs, "bad-op")
-  | _ => (bs, "bad-op")
+      | some n =>
+        -- the copy target is written object by object; on a disk target every put obeys the tree
+        -- Copy, Tar→Untar and Zip→Unzip meet the first error at different moments (Copy lists all
+        -- paths first, the archivers read while walking), so only "an error" is compared
+        (match rWalkD (st.map (·.1)) e bs [] with
+          | .error _ => (st, "err")
+          | .ok objs =>
+            let (isDisk, d0) := st.getB n
+            let res := objs.foldl (fun (acc : Except PErr Disk) kv =>
+              match acc with
+              | .error er => .error er
+              | .ok d =>
+                if isDisk then diskPut d kv.1 kv.2
+                else match memPut d.files kv.1 kv.2 with
+                  | .ok m' => .ok { d with files := m' }
+                  | .error er => .error er) (.ok d0)
+            match res with
+            | .ok d' => (st.setB n d', "ok:" ++ toString objs.length)
+            | .error _ => (st, "err"))
+      | none => (st, "bad-op")
+  | _ => (st, "bad-op")
+
+/-- kinds: a number n (n memory bases) or a string over {m,d}, one letter per base -/
+def parseKinds (s : String) : Option (List Bool) :=
+  match s.toNat? with
+  | some n => some (List.replicate n false)
+  | none => s.toList.mapM fun c => if c = 'm' then some false else if c = 'd' then some true else none
 
 def handleHist2 (expr nb ops : String) : String :=
-  match parseExpr (expr.splitOn ":"), nb.toNat? with
-  | some (e, []), some n =>
-    let bs0 : Bases := List.replicate n []
+  match parseExpr (expr.splitOn ":"), parseKinds nb with
+  | some (e, []), some kinds =>
+    let st0 : DState := kinds.map fun k => (k, BufModel.Disk.empty)
     let opsL := if ops = "-" then [] else ops.splitOn ";"
-    let (bs, outs) := opsL.foldl (fun (acc : Bases × List String) op =>
-      let (b', o) := stepOp e acc.1 op
-      (b', o :: acc.2)) (bs0, [])
-    ";".intercalate outs.reverse ++ String.join ((List.range n).map fun i => "|" ++ dump (bs.get i))
+    let (st, outs) := opsL.foldl (fun (acc : DState × List String) op =>
+      let (s', o) := stepOp e acc.1 op
+      (s', o :: acc.2)) (st0, [])
+    ";".intercalate outs.reverse ++ String.join ((List.range kinds.length).map fun i => "|" ++ dump (st.getB i).2.files)
   | _, _ => "bad-op"
 
 def handle : List String → String
